@@ -5,6 +5,7 @@
   no query evaluates to `none`.
 -/
 import GoBT.Script.Classify
+import GoBT.Script.IndexReviewLib
 namespace GoBT.C14
 open GoBT GoBT.Script
 
@@ -345,5 +346,9 @@ theorem undecodable_not_keybearing (s : Bytes) (h : (decodeParts s).2 = false) :
   simp only [e1, e2, e3, bind, Option.bind, pure]
   refine ⟨?_, ?_, ?_⟩ <;> · repeat' split
                             all_goals simp_all
+
+/-- ✓gen — every index / slice expression in the current sources of bscript belongs to a function reviewed in
+    GoBT/Script/IndexReviewLib.lean, with the number of expressions reviewed (a tripwire for model drift) -/
+theorem index_sites_reviewed_bscript : GoBT.Script.indexReviewBscriptOk = true := by decide +kernel
 
 end GoBT.C14
